@@ -3,7 +3,10 @@ THEOREMS_TIED = ["Rustic.Props.C13.treeStreamerOnce_any_order", "Rustic.Props.C1
                  "Rustic.Props.C13.every_written_pack_indexed", "Rustic.Props.C13.stored_set_schedule_independent",
                  "Rustic.Props.C13.treeId_independent_of_index", "Rustic.Props.C13.pipeline_progress",
                  "Rustic.Props.C13.network_progress", "Rustic.Props.C13.archiver_network_progress",
-                 "Rustic.Props.C13.snapshot_is_function_of_source"]
+                 "Rustic.Props.C13.snapshot_is_function_of_source",
+                 "Rustic.Props.C13.treeStreamerOnce_threads_progress", "Rustic.Props.C13.treeStreamerOnce_stuck_only_on_full_queue",
+                 "Rustic.Props.C13.bounded_queue_can_deadlock", "Rustic.Props.C13.addRaw_lock_progress",
+                 "Rustic.Props.C13.progress_needs_no_lock_across_blocking_send", "Rustic.Props.C13.lock_held_across_send_can_deadlock"]
 
 TRUSTED = [
     "hand-written nondeterministic models lean/Rustic/Model/Streamer.lean (TreeStreamerOnce, channel line) and Model/Archive.lean part 2 (packer / file writer / indexer events)",
@@ -44,6 +47,9 @@ def _install1(t):
 
 def finding_key(op, impl, model):
     t = op.split(" ")
+    if impl.startswith("not-run"):
+        # the harness stops running watchdog-guarded cases after 3 timeouts in one run (each is reported on its own)
+        return "c13.not-run"
     k = "c13." + (t[1] if len(t) > 1 else "?")
     if _install1(t):
         k += ".install1"
